@@ -420,7 +420,7 @@ impl<'a, T: Read + Write + Seek> PointCloudWriter<'a, T> {
             Error::invalid("Number of values does not match prototype length")?
         }
 
-        // Go over all values to validate and extract min/max values
+        // Go over all values to validate them before anything is changed
         for (i, p) in self.prototype.iter().enumerate() {
             let value = &values[i];
 
@@ -428,16 +428,21 @@ impl<'a, T: Read + Write + Seek> PointCloudWriter<'a, T> {
             if !match p.data_type {
                 RecordDataType::Single { .. } => matches!(value, RecordValue::Single(..)),
                 RecordDataType::Double { .. } => matches!(value, RecordValue::Double(..)),
-                RecordDataType::ScaledInteger { .. } => {
-                    matches!(value, RecordValue::ScaledInteger(..))
+                RecordDataType::ScaledInteger { min, max, .. } => {
+                    matches!(value, RecordValue::ScaledInteger(v) if min <= *v && *v <= max)
                 }
-                RecordDataType::Integer { .. } => matches!(value, RecordValue::Integer(..)),
+                RecordDataType::Integer { min, max } => {
+                    matches!(value, RecordValue::Integer(v) if min <= *v && *v <= max)
+                }
             } {
                 Error::invalid(format!(
-                    "Type mismatch at index {i}: value type does not match prototype"
+                    "Mismatch at index {i}: value type or range does not match prototype"
                 ))?
             }
+        }
 
+        // Go over all values to extract min/max values
+        for (i, p) in self.prototype.iter().enumerate() {
             // Update cartesian bounds
             if p.name == RecordName::CartesianX
                 || p.name == RecordName::CartesianY
